@@ -412,6 +412,23 @@ func runCase(run *sim.Run, id int) {
 				continue
 			}
 			if kind != 4 && rng.Chance(1, 4) && len(pending) > 1 {
+				// a member that sends nothing else in this block may try a complaint list whose LAST entry names
+				// another member as complainant: the message must be refused as a whole (only the first entry's
+				// complainant is authenticated against the sender), nobody is blamed for it
+				if n >= 3 && rng.Chance(1, 2) {
+					m := c.members[i]
+					r, hh := (i+1)%n, (i+2)%n
+					loc := m.DKG[gid]
+					r1r, _ := k.GetRound1Info(w.Ctx(), gid, tss.MemberID(r+1))
+					if sig, keySym, err := tss.SignComplaint(loc.R1.OneTimePubKey, r1r.OneTimePubKey, loc.R1.OneTimePrivKey); err == nil {
+						cps := []tsstypes.Complaint{{Complainant: tss.MemberID(i + 1), Respondent: tss.MemberID(r + 1), KeySym: keySym, Signature: sig}}
+						if rng.Bool() { // a third entry in between, also in the sender's name
+							cps = append(cps, tsstypes.Complaint{Complainant: tss.MemberID(i + 1), Respondent: tss.MemberID(hh + 1), KeySym: keySym, Signature: sig})
+						}
+						cps = append(cps, tsstypes.Complaint{Complainant: tss.MemberID(hh + 1), Respondent: tss.MemberID(r + 1), KeySym: keySym, Signature: sig})
+						exps = append(exps, txExp{tag: "r3:complaint-in-another-member's-name", actor: m.Acc, msg: tsstypes.NewMsgComplain(gid, cps, m.Acc.Addr.String())})
+					}
+				}
 				continue
 			}
 			m := c.members[i]
@@ -684,7 +701,7 @@ func main() {
 	}
 	n := run.N(480, 4000)
 	sim.Parallel(n, 16, func(i int) { runCase(run, i) })
-	for _, cn := range []string{"verdict:ACTIVE", "verdict:FALLEN", "tx:r3:justified-complaint:true", "tx:r3:false-complaint:true", "tx:r2:cheating-dealer:true"} {
+	for _, cn := range []string{"verdict:ACTIVE", "verdict:FALLEN", "tx:r3:justified-complaint:true", "tx:r3:false-complaint:true", "tx:r2:cheating-dealer:true", "tx:r3:complaint-in-another-member's-name:false"} {
 		run.Require(cn, 1)
 	}
 	run.Finish()
